@@ -150,7 +150,42 @@ def withDir (s : Session) (d : Nat) (k : DirStream → Session × ApiRes) : Sess
   | some h => k h
   | none => (s, .badScript)
 
-def fresh (s : Session) (id : Nat) : Bool := !(s.dirs.contains id) && !(s.files.contains id) && id != 0
+def freshD (s : Session) (id : Nat) : Bool := !(s.dirs.contains id) && id != 0
+def freshF (s : Session) (id : Nat) : Bool := !(s.files.contains id)
+
+/-- `read_exact` / `write_all` / read-to-end on a `File`, as sequences of single `read`/`write` calls: a call that
+    fails leaves the handle as the previous call left it (`&mut self` mutations of completed calls persist) -/
+def readxLoop (s : Session) (f : Nat) : Nat → FileH → Nat → List Nat → Session × ApiRes
+  | 0, h, _, _ => ({ s with files := s.files.insert f h, dead := true }, .err .hang)
+  | fuel + 1, h, n, acc =>
+    if n = 0 then ({ s with files := s.files.insert f h }, .ok [hexOfBytes acc])
+    else match s.exec (h.read n) with
+      | (.ok (bs, h'), d) =>
+        let s := { s with dev := d }
+        if bs.isEmpty then ({ s with files := s.files.insert f h' }, .err .eof)
+        else readxLoop s f fuel h' (n - bs.length) (acc ++ bs)
+      | (.error e, d) => fatal { s with files := s.files.insert f h } d e
+
+def readAllLoopS (s : Session) (f : Nat) : Nat → FileH → List Nat → Session × ApiRes
+  | 0, h, _ => ({ s with files := s.files.insert f h, dead := true }, .err .hang)
+  | fuel + 1, h, acc =>
+    match s.exec (h.read 4096) with
+    | (.ok (bs, h'), d) =>
+      let s := { s with dev := d }
+      if bs.isEmpty then ({ s with files := s.files.insert f h' }, .ok [hexOfBytes acc])
+      else readAllLoopS s f fuel h' (acc ++ bs)
+    | (.error e, d) => fatal { s with files := s.files.insert f h } d e
+
+def writeAllLoopS (s : Session) (f : Nat) : Nat → FileH → List Nat → Session × ApiRes
+  | 0, h, _ => ({ s with files := s.files.insert f h, dead := true }, .err .hang)
+  | fuel + 1, h, bs =>
+    if bs.isEmpty then ({ s with files := s.files.insert f h }, .ok [])
+    else match s.exec (h.write bs) with
+      | (.ok (n, h'), d) =>
+        let s := { s with dev := d }
+        if n = 0 then ({ s with files := s.files.insert f h' }, .err .writeZero)
+        else writeAllLoopS s f fuel h' (bs.drop n)
+      | (.error e, d) => fatal { s with files := s.files.insert f h } d e
 
 def mkDateTime (y m d h mi sec ms : Nat) : Option DateTime := DateTime.new? y m d h mi sec ms
 
@@ -181,19 +216,19 @@ def step (s : Session) (op : ApiOp) : Session × ApiRes :=
     ({ s with mounted := false, dirs := {}, files := {} }, .ok [])
   | .openDir d path dnew =>
     withDir s d fun h =>
-      if !s.fresh dnew then (s, .badScript) else
+      if !s.freshD dnew then (s, .badScript) else
       runOp s (openDir s.env (pathFuel path) h path) fun s st => ({ s with dirs := s.dirs.insert dnew st }, .ok [])
   | .createDir d path dnew =>
     withDir s d fun h =>
-      if !s.fresh dnew then (s, .badScript) else
+      if !s.freshD dnew then (s, .badScript) else
       runOp s (createDir s.env (pathFuel path) h path) fun s st => ({ s with dirs := s.dirs.insert dnew st }, .ok [])
   | .openFile d path fnew =>
     withDir s d fun h =>
-      if !s.fresh fnew then (s, .badScript) else
+      if !s.freshF fnew then (s, .badScript) else
       runOp s (openFile s.env (pathFuel path) h path) fun s f => ({ s with files := s.files.insert fnew f }, .ok [])
   | .createFile d path fnew =>
     withDir s d fun h =>
-      if !s.fresh fnew then (s, .badScript) else
+      if !s.freshF fnew then (s, .badScript) else
       runOp s (createFile s.env (pathFuel path) h path) fun s f => ({ s with files := s.files.insert fnew f }, .ok [])
   | .remove d path =>
     withDir s d fun h => runOp s (remove s.env (pathFuel path) h path) fun s _ => (s, .ok [])
@@ -206,18 +241,12 @@ def step (s : Session) (op : ApiOp) : Session × ApiRes :=
   | .read f n =>
     withFile s f fun h => runOp s (h.read n) fun s (bs, h) =>
       ({ s with files := s.files.insert f h }, .ok [hexOfBytes bs])
-  | .readx f n =>
-    withFile s f fun h => runOp s (readExact FileH.strm h n) fun s (bs, h) =>
-      ({ s with files := s.files.insert f h }, .ok [hexOfBytes bs])
-  | .readall f =>
-    withFile s f fun h => runOp s (readAllLoop 1100000 h []) fun s (bs, h) =>
-      ({ s with files := s.files.insert f h }, .ok [hexOfBytes bs])
+  | .readx f n => withFile s f fun h => readxLoop s f (n + 1) h n []
+  | .readall f => withFile s f fun h => readAllLoopS s f 1100000 h []
   | .write f bs =>
     withFile s f fun h => runOp s (h.write bs) fun s (n, h) =>
       ({ s with files := s.files.insert f h }, .ok [toString n])
-  | .writeall f bs =>
-    withFile s f fun h => runOp s (writeAll FileH.strm h bs) fun s h =>
-      ({ s with files := s.files.insert f h }, .ok [])
+  | .writeall f bs => withFile s f fun h => writeAllLoopS s f (bs.length + 1) h bs
   | .seek f k n =>
     withFile s f fun h => runOp s (h.seek (seekFrom k n)) fun s (pos, h) =>
       ({ s with files := s.files.insert f h }, .ok [toString pos])
